@@ -62,6 +62,9 @@ FILE[ps_setQFunction_resets_values]=include/AIToolbox/MDP/Algorithms/Prioritized
 SED[ps_setQFunction_resets_values]='s|^        qfun_ = qfun;|        qfun_ = qfun; vfun_.values = qfun_.rowwise().maxCoeff();|'
 FILE[core_general_drops_small]=include/AIToolbox/Utils/Core.hpp
 SED[core_general_drops_small]='s|if ( checkEqualSmall(a,b) ) return true;|if ( a == b ) return true;|'
+FILE[sarsa_optimistic_init]=src/MDP/Algorithms/SARSA.cpp
+SED[sarsa_optimistic_init]='s|q_(makeQFunction(S, A))|q_(QFunction::Ones(S, A))|'
+TEST[sarsa_optimistic_init]="MDP/SARSATests"
 TEST[eps_weights_swapped]="MDP/QGreedyPolicyTests MDP/ExpectedSARSATests MDP/RetraceLTests"
 TEST[greedy_exact_ties_only]="MDP/QGreedyPolicyTests MDP/ExpectedSARSATests"
 TEST[model_sampleSR_reward_of_next]="MDP/ModelTests MDP/DynaQTests MDP/Dyna2Tests"
